@@ -39,6 +39,9 @@ def _registry():
     return fam
 
 
+PATTERN_CLASS = {'combining': 'CombiningPatternEncoder', 'assigning': 'AssigningPatternEncoder',
+                 'partitioning': 'PartitioningPatternEncoder', 'connecting': 'ConnectingPatternEncoder',
+                 'permuting': 'PermutingPatternEncoder', 'unordered': 'UnorderedCombiningPatternEncoder'}
 N_FAMILIES = 40   # upper bound used to spread cases; the real number is read at run time
 
 
@@ -70,8 +73,11 @@ def gen_pattern_settings(rng):
         src = [['min', 0, False] for _ in range(n)]
         tgt = [['min', 0, False] for _ in range(n)]
         excl = [[i, i] for i in range(n)]
-        if rng.random() < 0.5:
+        r_ = rng.random()
+        if r_ < 0.4:
             excl += [[i, j] for i in range(n) for j in range(n) if i > j]
+        elif r_ < 0.7:
+            excl += [[i, j] for i in range(n) for j in range(n) if i > j and rng.random() < 0.5]     # part of the lower triangle
     elif kind == 'permuting':
         n = rng.randint(2, 3)
         src = [['list', [1], True] for _ in range(n)]
@@ -97,11 +103,15 @@ def gen_pattern_settings(rng):
 
 def batches(tier, seed):
     rng = rng_for(seed, 'C10')
-    n = 260 if tier == 'quick' else 3000
+    n = 420 if tier == 'quick' else 3000
     cases = []
     for i in range(n):
         c = matcase.gen(rng, max_src=2, max_tgt=3, overrides=False) if rng.random() < 0.55 else gen_pattern_settings(rng)
         c['_fam'] = rng.randrange(N_FAMILIES)
+        # settings made for a pattern meet the pattern encoder written for it in half of the cases (the selector tries the
+        # pattern encoders first, so this pairing is the one users get)
+        if c.get('family') in PATTERN_CLASS and rng.random() < 0.5:
+            c['_fam_class'] = PATTERN_CLASS[c['family']]
         c['_imp'] = rng.randrange(6)
         c['_i'] = i
         cases.append(c)
@@ -124,6 +134,11 @@ def run_case(case):
     rng = rng_for(case.get('_i', 0), 'C10case')
     fams = _registry()
     fam = fams[case['_fam'] % len(fams)]
+    if case.get('_fam_class'):
+        for f_ in fams:
+            if f_[0].startswith('pattern') and type(f_[1](f_[2][0][1]())).__name__ == case['_fam_class']:
+                fam = f_
+                break
     imp = fam[2][case['_imp'] % len(fam[2])]
     tags = ['enc:' + fam[0], 'imp:' + imp[0], 'family:' + case.get('family', 'random')]
     settings, pats = matcase.build(c)
@@ -265,7 +280,7 @@ def match_known(case, fail, known):
 def shrink_candidates(case):
     for c in matcase.shrink({k: v for k, v in case.items() if not k.startswith('_') and k != 'family'}):
         c = dict(c)
-        for k in ('_fam', '_imp', '_i', 'family'):
+        for k in ('_fam', '_imp', '_i', 'family', '_fam_class'):
             if k in case:
                 c[k] = case[k]
         yield c
